@@ -7,7 +7,7 @@
    function tables of a model state; `Rel st ft` says the names have the definitions ft in st.
    `comparable r`: r is a value or a condition other than undefined-function (and not "out of fuel"). *)
 From Coq Require Import List ZArith String Permutation.
-From C08 Require Import Model Spec Proofs.
+From C08 Require Import Model Spec Proofs ProofsLate.
 Import ListNotations.
 
 (* (1) Cache transparency, and compiled = list form, at the level of one evaluation: in EVERY state
@@ -107,13 +107,61 @@ Theorem C08_stale_lambda_repaired :
   runM 50 minit stale_ops2 = [(Val (VInt 3%Z), [])] /\ runS 50 sinit stale_ops2 = [(Val (VInt 3%Z), [])].
 Proof. exact stale_lambda_repaired. Qed.
 Print Assumptions C08_stale_lambda_repaired.
-(* C08-undefined-args-first: a compiled call of an undefined function evaluates its arguments before
-   signalling undefined-function (the list form signals first), so M = S cannot be claimed for outcomes
-   where S says undefined-function. *)
-Theorem C08_undefined_call_equal_refuted :
-  ~ (forall n ops, runM n minit ops = runS n sinit ops).
-Proof. exact undefined_call_equal_refuted. Qed.
-Print Assumptions C08_undefined_call_equal_refuted.
+(* (9b) The time at which an undefined operator is noticed.  CLHS 3.1.2.1.2.3 leaves open whether the definition of
+   the operator of a function form is looked up before or after the evaluation of its arguments; slip's list form
+   does the former, its compiled call (a call of the placeholder) the latter.  The former finding
+   C08-undefined-args-first is therefore not a defect, and the specification takes the lookup time as a parameter:
+   evalL late (Spec.v).  evalL with every lookup early IS evalS: *)
+Theorem C08_lookup_early_is_spec : forall ft n en o e, evalL early n ft en o e = evalS n ft en o e.
+Proof. exact evalL_early. Qed.
+Print Assumptions C08_lookup_early_is_spec.
+(* Wherever evalS is binding (`comparable`: a value or a condition other than undefined-function) the lookup time
+   is irrelevant: evalL gives that outcome for EVERY policy.  So theorems (1)-(8), stated with evalS and
+   `comparable`, say the same under any lookup time the language allows. *)
+Theorem C08_lookup_time_irrelevant_where_binding : forall late ft n en o e r o',
+  evalS n ft en o e = (r, o') -> comparable r = true -> evalL late n ft en o e = (r, o').
+Proof. exact evalL_policy_irrelevant. Qed.
+Print Assumptions C08_lookup_time_irrelevant_where_binding.
+(* Exactness, undefined-function outcomes included: in every state satisfying the invariant, M computes exactly
+   evalL for the policy `latef st` (an undefined name is noticed late iff it has a placeholder, i.e. some call of it
+   has been compiled): the same result or condition - undefined-function, or the error of an argument evaluated
+   before it - and the same emitted values.  Only S running out of fuel is not binding. *)
+Theorem C08_evaluation_exact : forall n st ft en e rS oS, Inv st -> Rel st ft ->
+  evalL (latef st) n ft en (out st) e = (rS, oS) -> binding rS = true ->
+  exists st', evalM n st en e = (rS, st') /\ out st' = oS.
+Proof. exact evalM_exact. Qed.
+Print Assumptions C08_evaluation_exact.
+(* The same for EVERY history from the empty state: under the lookup times of M's run (`pols_run`: one policy per
+   evaluated top-level form; each is a choice the language allows) the specification's outcomes are exactly M's
+   (oex: equal whenever S did not run out of fuel; never a value where S has none).  In particular there is an
+   assignment of lookup times under which S and M agree on everything - no guard, no exempted outcome.  With
+   the empty oracle runL is runS. *)
+Theorem C08_history_exact : forall n ops,
+  Forall2 oex (runL n sinit ops (pols_run n minit ops)) (runM n minit ops).
+Proof. exact history_exact. Qed.
+Print Assumptions C08_history_exact.
+Theorem C08_history_exact_exists : forall n ops, exists pols, Forall2 oex (runL n sinit ops pols) (runM n minit ops).
+Proof. exact history_exact_exists. Qed.
+Print Assumptions C08_history_exact_exists.
+Theorem C08_oracle_empty_is_spec : forall n ops s, runL n s ops [] = runS n s ops.
+Proof. exact runL_early. Qed.
+Print Assumptions C08_oracle_empty_is_spec.
+(* Non-vacuity of the lookup-time parameter (the witnesses of the former finding): (nodef (emit 5)) and
+   (nodef (+ 1 (list 2))), compiled (undef_ops) and as list forms (undef_ops_list): M emits 5 before
+   undefined-function / signals the type-error of the argument when compiled, signals undefined-function at once
+   from the list form; runL under M's lookup times says exactly that; runS says undefined-function at once. *)
+Theorem C08_lookup_time_witness :
+  let a1 := SList 2 [SSym "emit"; SInt 5%Z] in
+  let a2 := SList 2 [SSym "+"; SInt 1%Z; SList 3 [SSym "list"; SInt 2%Z]] in
+  runM 50 minit (undef_ops a1) = [(Err EUndefined, [VInt 5%Z])] /\
+  runL 50 sinit (undef_ops a1) (pols_run 50 minit (undef_ops a1)) = [(Err EUndefined, [VInt 5%Z])] /\
+  runM 50 minit (undef_ops_list a1) = [(Err EUndefined, [])] /\
+  runL 50 sinit (undef_ops_list a1) (pols_run 50 minit (undef_ops_list a1)) = [(Err EUndefined, [])] /\
+  runM 50 minit (undef_ops a2) = [(Err EType, [])] /\
+  runL 50 sinit (undef_ops a2) (pols_run 50 minit (undef_ops a2)) = [(Err EType, [])] /\
+  runS 50 sinit (undef_ops a1) = [(Err EUndefined, [])] /\ runS 50 sinit (undef_ops a2) = [(Err EUndefined, [])].
+Proof. exact lookup_time_witness. Qed.
+Print Assumptions C08_lookup_time_witness.
 
 (* The witnesses of the repaired finding C08-bare-symbol-body (repo_fixes/C08-4): a bare symbol as a body form is
    a variable reference looked up at call time.  (defun f (x) v) (defun g (v) (f 0)) (defvar v 1) (g 5), the
